@@ -114,6 +114,8 @@ type Stats struct {
 	OpOutcomes  map[string]int `json:"op_outcomes"`
 	States      map[string]int `json:"-"`       // abstract states visited
 	Aborted     string         `json:"aborted,omitempty"` // inconclusive reason (e.g. panic owned by C11)
+	KnownHits   map[string]int `json:"known_hits,omitempty"`
+	Suppressed  map[string]int `json:"suppressed,omitempty"`
 }
 
 func NewStats() Stats {
@@ -149,6 +151,8 @@ type Run struct {
 	ledgerCache  *Ledger
 	LastBegin    abci.ResponseBeginBlock
 	LastEvidence []Evidence
+	tainted      bool
+	NoKnown      bool // replay/minimise mode: known findings are reported like any violation
 	PendingDogfoodUndelegations []string
 }
 
@@ -162,17 +166,55 @@ func (r *Run) Probe(name string)  { r.Stats.Probes[name]++ }
 func (r *Run) Fault(name string)  { r.Stats.Faults[name]++ }
 func (r *Run) State(name string)  { r.Stats.States[name]++ }
 
-// Violate records the first violation of the run.
-func (r *Run) Violate(mon, inv, disc, detail string) {
+// Violate records the first violation of the run and returns true if the run stops.
+// A violation whose class is listed as an open known finding is only counted (the run goes
+// on, so the finding does not mask deeper states); after such a hit the run is "tainted":
+// later violations of other classes may be consequences of the known defect and are counted
+// as suppressed instead of being reported as new.
+func (r *Run) Violate(mon, inv, disc, detail string) bool {
 	if r.Viol != nil {
-		return
+		return true
 	}
 	h := int64(0)
 	if r.Chain != nil {
 		h = r.Chain.CurHeader.Height
 	}
-	r.Viol = &Violation{Prop: r.Prop, Monitor: mon, Invariant: inv, Disc: disc, Detail: detail,
+	v := &Violation{Prop: r.Prop, Monitor: mon, Invariant: inv, Disc: disc, Detail: detail,
 		Block: r.curBlock, OpIdx: r.curOp, Height: h, Phase: r.phase}
+	if !r.NoKnown {
+		if KnownClasses()[v.Class()] {
+			if r.Stats.KnownHits == nil {
+				r.Stats.KnownHits = map[string]int{}
+			}
+			r.Stats.KnownHits[v.Class()]++
+			r.tainted = true
+			return false
+		}
+		if r.tainted {
+			if r.Stats.Suppressed == nil {
+				r.Stats.Suppressed = map[string]int{}
+			}
+			r.Stats.Suppressed[v.Class()]++
+			return false
+		}
+	}
+	r.Viol = v
+	return true
+}
+
+var knownClasses map[string]bool
+
+// KnownClasses returns the classes of the open known findings (loaded once per process).
+func KnownClasses() map[string]bool {
+	if knownClasses == nil {
+		knownClasses = map[string]bool{}
+		for _, f := range LoadKnown().Findings {
+			if f.Status == "open" {
+				knownClasses[f.Class] = true
+			}
+		}
+	}
+	return knownClasses
 }
 
 // NewRun prepares a run (world, node, genesis) but executes nothing.
@@ -189,7 +231,9 @@ func (r *Run) abort(reason string) {
 // onPanic handles a panic that escaped an ABCI call of block processing.
 func (r *Run) onPanic(p *PanicError) {
 	if r.NoPanicGuard {
-		r.Violate("liveness", "no-panic-escapes-"+p.Phase, PanicDisc(p), fmt.Sprintf("%v\n%s", p.Value, trimStack(p.Stack)))
+		if !r.Violate("liveness", "no-panic-escapes-"+p.Phase, PanicDisc(p), fmt.Sprintf("%v\n%s", p.Value, trimStack(p.Stack))) {
+			r.abort("known-finding-halt")
+		}
 		return
 	}
 	r.abort("panic:" + p.Phase + ":" + PanicDisc(p))
@@ -521,7 +565,9 @@ func (r *Run) ExecBlock(bi int, b Block) {
 	if err := c.ApplyEndBlock(h, eb.ValidatorUpdates); err != nil {
 		// the consensus engine would halt here
 		if r.NoPanicGuard || r.Prop == "C06" {
-			r.Violate("valset", "updates-accepted-by-consensus", normDigits(firstLine(err.Error())), err.Error())
+			if !r.Violate("valset", "updates-accepted-by-consensus", normDigits(firstLine(err.Error())), err.Error()) {
+				r.abort("known-finding-halt")
+			}
 		} else {
 			r.abort("valset-rejected: " + err.Error())
 		}
